@@ -38,6 +38,46 @@ CORPUS = os.path.join(common.VERIF, 'corpus', 'C15')
 CFGS = [(1.5 * np.pi, np.pi / 12), (np.pi, np.pi / 4), (1.5 * np.pi, np.pi / 2)]
 
 
+# second phase coding ("grid": "pi4" in a case): code k stands for the float k*(np.pi/4), so that code 6 IS the float
+# 1.5*np.pi the augmented-cycle code compares against (strictly); thresholds of the model are derived from the truth
+# tables of the very float comparisons the implementation makes (asserted to be functions of the integer codes)
+PI4 = np.pi / 4
+PI4_VALUES = [k * PI4 for k in range(9)]
+PI4_CFGS = [(1.3 * np.pi, np.pi / 12), (1.3 * np.pi, 0.3 * np.pi), (1.1 * np.pi, np.pi / 12)]
+
+
+def grid_cfg_codes(step, edge):
+    g = PI4_VALUES
+    assert g[6] == 1.5 * np.pi and g[8] == 2 * np.pi and all(g[k] < g[k + 1] for k in range(8))
+    tab = {}
+    for a in range(9):
+        for b in range(9):
+            tab.setdefault(abs(a - b), set()).add(bool(abs(g[a] - g[b]) > step))
+    assert all(len(v) == 1 for v in tab.values()), 'wrap test is not a function of the code difference'
+    S = max(d for d, v in tab.items() if v == {False})
+    assert all((d > S) == (v == {True}) for d, v in tab.items())
+    lo = [k for k in range(9) if 0 <= g[k] <= edge]
+    assert lo == list(range(len(lo)))
+    hi = [k for k in range(9) if g[k] >= 2 * np.pi - edge]
+    assert hi == list(range(9 - len(hi), 9)) and hi
+    tp = [k for k in range(9) if g[k] <= 2 * np.pi]
+    assert tp == list(range(9))
+    above = [k for k in range(9) if g[k] > TROUGH]
+    assert above == [7, 8]
+    return [S, len(lo) - 1, hi[0], 8, 6]
+
+
+def cfg_of(case):
+    return (PI4_CFGS if case.get('grid') == 'pi4' else CFGS)[case.get('cfg', 0)]
+
+
+def phase_list(case):
+    """the float phases of a case, exactly as the implementation receives them"""
+    if case.get('grid') == 'pi4':
+        return [float(x) for x in np.array(case['codes'], dtype=float) * PI4]
+    return [float(x) for x in np.array(case['codes'], dtype=float) / UNIT]
+
+
 def trough_code():
     fr = Fraction(float(TROUGH)) * UNIT
     assert fr.denominator != 1
@@ -70,8 +110,8 @@ def snapshot(C):
 
 def build(case):
     from emd import cycles
-    ph = np.array(case['codes'], dtype=float) / UNIT
-    step, edge = CFGS[case.get('cfg', 0)]
+    ph = np.array(phase_list(case), dtype=float)
+    step, edge = cfg_of(case)
     return cycles.Cycles(ph, phase_step=step, phase_edge=edge, use_cache=bool(case['cache']))
 
 
@@ -233,7 +273,9 @@ def op_lit(op):
 
 
 def cfg_codes(case):
-    step, edge = CFGS[case.get('cfg', 0)]
+    step, edge = cfg_of(case)
+    if case.get('grid') == 'pi4':
+        return grid_cfg_codes(step, edge)
     return cyclevec.code_cfg(step, edge) + [trough_code()]
 
 
@@ -274,9 +316,40 @@ def gen_codes(rng):
     return codes
 
 
+def gen_codes_pi4(rng):
+    """phases k*pi/4: rising cycles that contain samples exactly equal to 1.5*pi (k = 6), with plateaus on it, dips back
+    below it, cycles that end on it, and cycles that jump over it"""
+    codes, cur = [], rng.choice([0, 0, 1, 3, 5, 6])
+    for _ in range(rng.randint(8, 36)):
+        codes.append(cur)
+        r = rng.random()
+        if cur == 6 and r < 0.35:
+            nxt = 6                                  # plateau on the trough value
+        elif cur == 6 and r < 0.5:
+            nxt = rng.choice([4, 5])                 # dip back below it
+        elif cur == 6 and r < 0.62:
+            nxt = rng.choice([0, 0, 1])              # the cycle ends on it (wrap 6 -> 0)
+        elif cur == 7 and r < 0.25:
+            nxt = 6                                  # back onto it after having passed it
+        elif r < 0.7:
+            nxt = cur + 1
+        elif r < 0.85:
+            nxt = cur + 2
+        elif r < 0.92:
+            nxt = cur
+        else:
+            nxt = cur - 1
+        if nxt > 7:
+            nxt = rng.choice([0, 0, 0, 1]) if rng.random() < 0.9 else 8
+        if cur == 8:
+            nxt = rng.choice([0, 1])
+        cur = max(0, min(8, nxt))
+    return codes
+
+
 def n_cycles(case):
-    step, _ = CFGS[case.get('cfg', 0)]
-    ph = [c / UNIT for c in case['codes']]
+    step, _ = cfg_of(case)
+    ph = phase_list(case)
     return len(cyclevec.segments_of(ph, step))
 
 
@@ -325,8 +398,8 @@ def gen_ops(rng, case, maxlen=12):
     """Random history; the generator keeps its own metric table (brute force) only to choose names and literals that make
     selections succeed or fail in interesting ways - nothing of it is used as an expectation."""
     N = len(case['codes'])
-    ph = [c / UNIT for c in case['codes']]
-    step, edge = CFGS[case.get('cfg', 0)]
+    ph = phase_list(case)
+    step, edge = cfg_of(case)
     segs = cyclevec.segments_of(ph, step)
     K = len(segs)
     cv = [-1] * N
@@ -378,6 +451,17 @@ def gen_ops(rng, case, maxlen=12):
 def gen_case(rng):
     case = dict(codes=gen_codes(rng), cfg=rng.choice([0, 0, 0, 1, 2]), cache=1)
     case['ops'] = gen_ops(rng, case)
+    return case
+
+
+def gen_case_pi4(rng):
+    case = dict(codes=gen_codes_pi4(rng), cfg=rng.choice([0, 0, 1, 2]), cache=1, grid='pi4')
+    ops = gen_ops(rng, case, maxlen=8)
+    # make sure augmented-mode metrics are computed: that is what this family is for
+    N = len(case['codes'])
+    for f in rng.sample(FUNCS, 2):
+        ops.insert(rng.randint(0, len(ops)), ['compute', rng.choice(NAMES), f, 1, [rng.randint(-9, 20) for _ in range(N)]])
+    case['ops'] = ops[:12]
     return case
 
 
@@ -438,8 +522,8 @@ def runs(subset):
 def brute_cycle(case, cv, f, mode, vals, K):
     """f applied to each cycle's samples, straight from the cycle vector; ('undef',) where augmentation does not exist"""
     fn = PYF[f]
-    ph = case['codes']
-    tc = trough_code()
+    ph = phase_list(case)
+    tc = TROUGH                      # documented: first sample of the previous cycle with phase > 1.5*pi (strictly)
     out = []
     for k in range(K):
         own = [i for i in range(len(cv)) if cv[i] == k]
@@ -478,8 +562,8 @@ def oracle_trace(case, tr):
     if tr['init'][0] != 'ok':
         return [('Cycles.__init__', 'constructor raised (code %s)' % tr['init'][1])]
     cv, K = tr['cv'], tr['ncycles']
-    ph = [c / UNIT for c in case['codes']]
-    step, edge = CFGS[case.get('cfg', 0)]
+    ph = phase_list(case)
+    step, edge = cfg_of(case)
     segs = cyclevec.segments_of(ph, step)
     expcv = [-1] * len(ph)
     for k, (a, b) in enumerate(segs):
@@ -719,6 +803,15 @@ def shrink(case, failing, budget=150):
 
 
 # ------------------------------------------------------------------ check
+def case_input(case, with_cache=False):
+    inp = dict(codes=case['codes'], cfg=case.get('cfg', 0), ops=case['ops'])
+    if case.get('grid'):
+        inp['grid'] = case['grid']
+    if with_cache:
+        inp['cache'] = case['cache']
+    return inp
+
+
 def load_corpus():
     out = []
     for p in sorted(glob.glob(os.path.join(CORPUS, '*.json'))):
@@ -734,7 +827,7 @@ def save_corpus(case, site, detail):
     os.makedirs(CORPUS, exist_ok=True)
     if len(glob.glob(os.path.join(CORPUS, '*.json'))) >= 40:
         return
-    blob = dict(input=dict(codes=case['codes'], cfg=case.get('cfg', 0), ops=case['ops']), site=site, what=detail)
+    blob = dict(input=case_input(case), site=site, what=detail)
     path = os.path.join(CORPUS, 'auto-%s.json' % common.sha(blob['input']))
     if not os.path.exists(path):
         with open(path, 'w') as f:
@@ -758,6 +851,16 @@ def classify(case, tr):
     picked = any(op[0] == 'pick' and s['out'] == ['ok'] for op, s in zip(case['ops'], tr['steps']))
     aug = any(op[0] == 'compute' and op[3] for op in case['ops'])
     path = 'K%s%s%s' % ('0' if K == 0 else '1' if K == 1 else '2+', '-pick' if picked else '', '-aug' if aug else '')
+    if case.get('grid') == 'pi4':
+        # does a strict and a non-strict trough test pick different samples somewhere?
+        ph, cv = phase_list(case), tr['cv']
+        tie = False
+        for k in range(1, K):
+            prev = [i for i in range(len(cv)) if cv[i] == k - 1]
+            ge = [i for i in prev if ph[i] >= TROUGH]
+            gt = [i for i in prev if ph[i] > TROUGH]
+            tie = tie or (ge[:1] != gt[:1])
+        path = 'pi4-' + path + ('-tie' if tie and aug else '')
     return (K >= 2 and (picked or aug)), path
 
 
@@ -781,7 +884,7 @@ def report_violation(ctx, case, fails, shrink_it=True):
                 small = case
         except Exception:                                               # noqa
             small = case
-    inp = dict(codes=small['codes'], cfg=small.get('cfg', 0), ops=small['ops'])
+    inp = case_input(small)
     ctx.problem('impl-violation', site, detail, input=inp, tags=site_tags(small, site, detail))
     if common.REPO == '/repo':
         save_corpus(small, site, detail)
@@ -795,7 +898,12 @@ def run(ctx):
                 'timings, export all / subset / conditions / both) on containers built from 2..40 integer-coded phases (code/8: '
                 'sawtooth with random increments, reversals, short and wrap-free recordings) with 3 (phase_step, phase_edge) '
                 'settings, each run with use_cache=True and False; after the constructor and after EVERY operation the full state '
-                'and the operation\'s result are compared exactly with the model; corpus/C15 first.  '
+                'and the operation\'s result are compared exactly with the model; corpus/C15 first.  A second family has its '
+                'phases on the pi/4 grid (k*np.pi/4, so k = 6 IS the float 1.5*np.pi of the augmented-cycle trough test), with plateaus '
+                'on that value, dips below it, cycles ending on it: there the model\'s thresholds are derived from the truth tables of '
+                'the implementation\'s own float comparisons over the 9 grid values (asserted to depend on the integer codes only), '
+                'so the correspondence is exact and sound for that family too (code 6 is "not above the trough"), and the oracle '
+                'applies the documented STRICT test phase > 1.5*pi.  '
                 'non-trivial = container with >= 2 cycles and a successful selection or an augmented-mode metric')
     ctx.notes += [
         "augmented mode: 'that cycle's samples' is read as the container's own get_inds_of_cycle(ii, mode='augmented') "
@@ -813,7 +921,9 @@ def run(ctx):
         'no comparison depends on decimal-to-binary rounding.']
     ctx.proof()
     corpus = load_corpus()
-    cases = [dict(c, cache=1) for _, c in corpus] + [gen_case(ctx.rng) for _ in range(nrand)]
+    ngrid = 70 if ctx.quick() else 1500
+    cases = ([dict(c, cache=1) for _, c in corpus] + [gen_case(ctx.rng) for _ in range(nrand)]
+             + [gen_case_pi4(ctx.rng) for _ in range(ngrid)])
     both = []
     for c in cases:
         both += [dict(c, cache=1), dict(c, cache=0)]
@@ -823,7 +933,7 @@ def run(ctx):
     mism = []
     for c, (r, tr), m in zip(both, impl, model):
         nt, path = classify(c, tr)
-        ctx.count((c['codes'], c['cfg'], c['cache'], c['ops']), nt, path + ('-cache' if c['cache'] else '-nocache'))
+        ctx.count((c.get('grid'), c['codes'], c['cfg'], c['cache'], c['ops']), nt, path + ('-cache' if c['cache'] else '-nocache'))
         for op, s in zip(c['ops'], tr.get('steps', [])):
             ctx.hist['op-%s-%s' % (op[0], s['out'][0])] += 1
         ctx.exact_cmp += 1
@@ -831,6 +941,8 @@ def run(ctx):
             mism.append((c, r, m))
     ctx.extra['corpus_cases'] = len(corpus)
     ctx.sample(dict(codes=cases[len(corpus)]['codes'], cfg=cases[len(corpus)]['cfg'], ops=cases[len(corpus)]['ops']))
+    ctx.sample(dict(grid='pi4', codes=cases[-1]['codes'], cfg=cases[-1]['cfg'], ops=cases[-1]['ops'][:3]))
+    ctx.extra['pi4_grid_cases'] = ngrid
     if corpus:
         ctx.sample(dict(corpus=corpus[0][0], case=corpus[0][1]))
     # oracle: first on every case where model and implementation differ, then on everything
@@ -866,7 +978,7 @@ def run(ctx):
         m2 = ctx.model_outputs(IMPORTS, [case_lit(small)], MODEL_EXPR)[0]
         k = next((i for i in range(min(len(r2), len(m2))) if r2[i] != m2[i]), min(len(r2), len(m2)))
         ctx.problem('correspondence-break', 'run_trace', 'model and implementation traces differ at position %d' % k,
-                    input=dict(codes=small['codes'], cfg=small.get('cfg', 0), cache=small['cache'], ops=small['ops']),
+                    input=case_input(small, with_cache=True),
                     observed=r2[max(0, k - 10):k + 10], expected=m2[max(0, k - 10):k + 10],
                     theorem='CyclesObj.run_trace vs emd.cycles.Cycles')
 
